@@ -115,6 +115,7 @@ func main() {
 	}
 	run(r, caseID{"diff", r.Seed, 0})
 	run(r, caseID{"interleave", r.Seed*5_000_003 + 1, 1})
+	run(r, caseID{"reconcile-race", r.Seed*7_000_003 + 1, 1})
 	if rep := racelog.Scan(); rep != nil {
 		for sig, n := range rep.Regatta {
 			r.Violation(sig, fmt.Sprintf("data race report with regatta frames (x%d): %s", n, rep.Samples[sig]), nil)
@@ -132,6 +133,8 @@ func main() {
 	r.FloorCount("reconcile_checks", int64(r.Pick(5, 50)))
 	r.FloorCount("create_races", int64(r.Pick(15, 100)))
 	r.FloorCount("diff_cases", int64(r.Pick(2000, 50000)))
+	r.FloorCount("reconcile_passes_overlapping_a_create_or_delete", int64(r.Pick(60, 400)))
+	r.FloorCount("cluster_create_rounds_with_a_winner", int64(r.Pick(8, 40)))
 	r.FloorCount("cluster_restores_on_three_nodes", int64(r.Pick(1, 4)))
 	r.FloorCount("cluster_catalogue_replicas_caught_up_by_snapshot", int64(r.Pick(1, 4)))
 	r.FloorCount("id_allocations_interleaved_at_the_sequence", int64(r.Pick(6, 20)))
@@ -150,6 +153,8 @@ func run(r *ev.Run, id caseID) {
 		runInterleave(r, id)
 	case "cluster":
 		runCluster(r, id)
+	case "reconcile-race":
+		runReconcileRace(r, id)
 	}
 }
 
@@ -1091,6 +1096,106 @@ func runCluster(r *ev.Run, id caseID) {
 		r.Count("restores_ok", 1)
 		r.Nontrivial(fmt.Sprint("cluster-restore", id.Seed))
 	}
+	// (1b) creations issued through all three nodes at the same instant (their catalogue writes can
+	// be committed and applied together): of one name at most one succeeds; whatever succeeds gets
+	// an id of its own, greater than every id assigned before the round
+	for round, nr := 0, r.Pick(12, 60); round < nr; round++ {
+		same := round%2 == 0
+		type res struct {
+			name string
+			id   uint64
+			err  error
+		}
+		out := make([]res, 3)
+		var wg sync.WaitGroup
+		start := make(chan struct{})
+		for i := range c.Nodes {
+			out[i].name = fmt.Sprintf("race%d", round)
+			if !same {
+				out[i].name = fmt.Sprintf("race%d-n%d", round, i+1)
+			}
+			wg.Add(1)
+			go func(i int) {
+				defer wg.Done()
+				<-start
+				tb, err := c.Nodes[i].Engine.CreateTable(out[i].name)
+				out[i].id, out[i].err = tb.ClusterID, err
+			}(i)
+		}
+		close(start)
+		wg.Wait()
+		w.Ops = append(w.Ops, fmt.Sprintf("round %d: create(%s), create(%s), create(%s) through nodes 1, 2, 3 at once", round, out[0].name, out[1].name, out[2].name))
+		r.Count("catalogue_ops", 3)
+		okN := 0
+		ids := map[uint64]string{}
+		roundMax := maxID
+		for i, o := range out {
+			if o.err != nil {
+				continue
+			}
+			okN++
+			if prev, dup := ids[o.id]; dup {
+				fail("table-id-reused", fmt.Sprintf("creations through different nodes at once: %s and %s (node %d) were both given shard id %d", prev, o.name, i+1, o.id))
+				return
+			}
+			ids[o.id] = o.name
+			if o.id <= maxID {
+				fail("table-id-reused", fmt.Sprintf("create(%s) through node %d gave id %d, but id %d had been assigned before the round", o.name, i+1, o.id, maxID))
+				return
+			}
+			if o.id > roundMax {
+				roundMax = o.id
+			}
+		}
+		maxID = roundMax
+		if same && okN > 1 {
+			fail("racing-creations-both-succeed", fmt.Sprintf("create(%s) issued through three nodes at once succeeded %d times (ids %v)", out[0].name, okN, ids))
+			return
+		}
+		r.Count("cluster_create_rounds_across_nodes", 1)
+		if okN > 0 {
+			r.Count("cluster_create_rounds_with_a_winner", 1)
+		}
+		// tidy up. Catalogue reads are served from the local replica of the node asked, which may
+		// lag behind a write acknowledged through another node: wait (bounded) until the three
+		// listings agree, then delete whatever the round left (also creations answered with an
+		// error: the record may exist although the call failed later on) through node 1.
+		for _, o := range out {
+			if o.err != nil {
+				r.Count("cluster_racing_creates_answered_with_an_error", 1)
+			}
+		}
+		for a := 0; a < 100; a++ {
+			var ls [3]string
+			for i, n := range c.Nodes {
+				ts, _ := n.Engine.GetTables()
+				var names []string
+				for _, t := range ts {
+					names = append(names, t.Name)
+				}
+				sort.Strings(names)
+				ls[i] = fmt.Sprint(names)
+			}
+			if ls[0] == ls[1] && ls[1] == ls[2] {
+				break
+			}
+			time.Sleep(50 * time.Millisecond)
+		}
+		for a := 0; a < 40; a++ {
+			ts, err := e0.GetTables()
+			left := 0
+			for _, t := range ts {
+				if strings.HasPrefix(t.Name, "race") {
+					left++
+					_ = e0.DeleteTable(t.Name)
+				}
+			}
+			if err == nil && left == 0 {
+				break
+			}
+			time.Sleep(50 * time.Millisecond)
+		}
+	}
 	// (2) node 3 down; delete + catalogue churn (snapshots, log compaction); node 3 back
 	live[2].Store(false)
 	time.Sleep(150 * time.Millisecond)
@@ -1224,4 +1329,110 @@ func runCluster(r *ev.Run, id caseID) {
 	r.Eval(1)
 	r.Nontrivial(fmt.Sprint("cluster-catch-up", id.Seed))
 	r.Sample(map[string]any{"kind": "cluster", "ops": head(w.Ops, 30)})
+}
+
+// runReconcileRace: reconciliation passes that overlap a create or a delete on the same node. Each
+// round starts two passes and one catalogue change at the same instant and waits for all three;
+// nothing else runs afterwards, so whatever a pass wrongly stopped (or left running) stays that
+// way and is seen by the comparison of the running user shards with the catalogue.
+func runReconcileRace(r *ev.Run, id caseID) {
+	g := rand.New(rand.NewSource(id.Seed))
+	c, err := cluster.Start(cluster.Opts{Nodes: 1})
+	if err != nil {
+		r.Inconclusive("engine start: " + err.Error())
+		return
+	}
+	defer c.Close()
+	e := c.Nodes[0].Engine
+	w := witness{Case: id}
+	cat := map[string]uint64{}
+	for round, nr := 0, r.Pick(40, 250); round < nr; round++ {
+		name := fmt.Sprintf("rr%d", round)
+		del := ""
+		if len(cat) > 3 && g.Intn(3) == 0 {
+			for n := range cat {
+				del = n
+				break
+			}
+		}
+		var wg sync.WaitGroup
+		start := make(chan struct{})
+		for p := 0; p < 2; p++ {
+			wg.Add(1)
+			go func(p int) {
+				defer wg.Done()
+				<-start
+				if p == 1 {
+					time.Sleep(time.Duration(g.Intn(300)) * time.Microsecond)
+				}
+				_ = e.Manager.VerifReconcile()
+			}(p)
+		}
+		var cerr error
+		var tb table.Table
+		wg.Add(1)
+		go func() {
+			defer wg.Done()
+			<-start
+			if del != "" {
+				cerr = e.DeleteTable(del)
+			} else {
+				tb, cerr = e.CreateTable(name)
+			}
+		}()
+		close(start)
+		wg.Wait()
+		r.Count("reconcile_passes_overlapping_a_create_or_delete", 2)
+		if del != "" {
+			w.Ops = append(w.Ops, fmt.Sprintf("delete(%s) || reconcile || reconcile", del))
+			if cerr != nil {
+				w.What = cerr.Error()
+				r.Violation("delete-failed-for-existing-name", fmt.Sprintf("delete(%s) racing with reconciliation failed: %v", del, cerr), w)
+				return
+			}
+			delete(cat, del)
+			// the pass that stops the shard is the next one: run it alone
+			_ = e.Manager.VerifReconcile()
+		} else {
+			w.Ops = append(w.Ops, fmt.Sprintf("create(%s) || reconcile || reconcile", name))
+			if cerr != nil {
+				w.What = cerr.Error()
+				r.Violation("create-failed-for-free-name", fmt.Sprintf("create(%s) racing with reconciliation failed: %v", name, cerr), w)
+				return
+			}
+			cat[name] = tb.ClusterID
+		}
+		var want []uint64
+		for _, v := range cat {
+			want = append(want, v)
+		}
+		sort.Slice(want, func(i, j int) bool { return want[i] < want[j] })
+		if got := runningUserShards(e); fmt.Sprint(got) != fmt.Sprint(want) {
+			w.What = fmt.Sprintf("after %s: node runs user shards %v, catalogue has %v", w.Ops[len(w.Ops)-1], got, want)
+			r.Violation("running-shards-differ-from-catalogue-after-reconcile", w.What, w)
+			return
+		}
+		if del == "" && round%4 == 0 {
+			// the table just created serves a write
+			var perr error
+			for a := 0; a < 100; a++ {
+				ctx, cancel := ctx10()
+				_, perr = e.Put(ctx, &pb.PutRequest{Table: []byte(name), Key: []byte("k"), Value: []byte("v")})
+				cancel()
+				if perr == nil {
+					break
+				}
+				time.Sleep(30 * time.Millisecond)
+			}
+			if perr != nil {
+				w.What = perr.Error()
+				r.Violation("created-table-does-not-serve", fmt.Sprintf("table %s created while reconciliation passes ran does not accept a write 3 s later: %v", name, perr), w)
+				return
+			}
+		}
+		r.Count("reconcile_checks", 1)
+	}
+	r.Eval(1)
+	r.Nontrivial(fmt.Sprint("reconcile-race", id.Seed))
+	r.Sample(map[string]any{"kind": "reconcile-race", "ops": head(w.Ops, 10)})
 }
